@@ -6,6 +6,7 @@ CONSTANTS
   Space = "none"
   Canonical = FALSE
   Deviations = {}
+VIEW TView
 CONSTRAINT HWM
 POSTCONDITION TraceAccepted
 CHECK_DEADLOCK FALSE
